@@ -1056,6 +1056,26 @@ fn answer_inner(line: &str) -> String {
             }
         }
         #[cfg(feature = "serde")]
+        "sernhr" => {
+            // the same through a format that is not human readable (serde lets an implementation branch on that)
+            use serde::{Deserialize, Serialize};
+            let v = arg!(0);
+            match LanguageIdentifier::from_bytes(&v) {
+                Ok(li) => {
+                    let (kind, val) = match li.serialize(crate::nhr::S) {
+                        Ok(crate::nhr::Rec::Str(s)) => ("str", esc(s.as_bytes())),
+                        Ok(crate::nhr::Rec::Bytes(bv)) => ("bytes", esc(&bv)),
+                        Ok(crate::nhr::Rec::Other(k)) => (k, String::new()),
+                        Err(e) => ("err", esc(e.0.as_bytes())),
+                    };
+                    let text = li.to_string();
+                    let rt = LanguageIdentifier::deserialize(crate::nhr::D(&text)).map_or(false, |y| y == li);
+                    format!("ok kind={} val={} rt={}", kind, val, b(rt))
+                }
+                Err(e) => li_err(&e).to_string(),
+            }
+        }
+        #[cfg(feature = "serde")]
         "serfrom" => {
             // argument: JSON text
             let v = arg!(0);
